@@ -242,6 +242,7 @@ def build(ctx):
         ctx.unit(f"merge-bookkeeping[{mname}]", lambda mname=mname: unit_merge(ctx, mname, "bookkeeping"))
     ctx.unit("new_combination_score", lambda: unit_combination_score(ctx))
     ctx.add_bounded("c14-enum", "c14.bounded")
+    ctx.add_bounded("c14-fn-enum", "c14.bounded_fn")
 
 
 def concretise(ctx, o, r):
